@@ -61,10 +61,13 @@ def pool():
     return _pool
 
 
-def shutdown():
+def shutdown(force=False):
     global _pool
     if _pool is not None:
-        _pool.close()
+        if force:
+            _pool.terminate()     # a worker may be stuck after an error
+        else:
+            _pool.close()
         _pool.join()
         _pool = None
 
